@@ -13,8 +13,8 @@ import networkx as nx
 
 from .. import AnalysisError, tables
 from ..callgraph import callgraph
-from ..canon import single_assignments
-from ..pm import src, dotted
+from ..canon import canon, single_assignments
+from ..pm import FunctionInfo, src, dotted
 from ..q import FA, call_name, const, guard_facts, is_self_attr, walk_no_nested
 from ..resolve import resolver
 from ..rules import undef
@@ -111,6 +111,27 @@ def _called_after_store(prog, c, m, attr, options, depth=0):
                     continue
                 return False
     return sites > 0
+
+
+def _state_saved_around(fi, stmt):
+    """stmt sits in a block in which, before it, a dict `{k: copy.deepcopy(r.__dict__) for k, r in self._reparameterisation.items()}`
+    is bound and, after it, a loop `for k, r in self._reparameterisation.items(): r.__dict__.update(<that dict>[k])` writes it back."""
+    for owner in ast.walk(fi.node):
+        for fld in ("body", "orelse", "finalbody"):
+            blk = getattr(owner, fld, None)
+            if not (isinstance(blk, list) and any(stmt is s_ or any(stmt is x_ for x_ in ast.walk(s_)) for s_ in blk)):
+                continue
+            i = next(k_ for k_, s_ in enumerate(blk) if stmt is s_ or any(stmt is x_ for x_ in ast.walk(s_)))
+            saved = None
+            for s_ in blk[:i]:
+                if isinstance(s_, ast.Assign) and len(s_.targets) == 1 and isinstance(s_.targets[0], ast.Name) and isinstance(s_.value, ast.DictComp) and "deepcopy" in src(s_.value.value) and "__dict__" in src(s_.value.value) and "_reparameterisation" in src(s_.value.generators[0].iter):
+                    saved = s_.targets[0].id
+            if saved is None:
+                continue
+            for s_ in blk[i + 1:]:
+                if isinstance(s_, ast.For) and "_reparameterisation" in src(s_.iter) and any(isinstance(c_, ast.Call) and isinstance(c_.func, ast.Attribute) and c_.func.attr == "update" and src(c_.func.value).endswith(".__dict__") and c_.args and saved in src(c_.args[0]) for c_ in ast.walk(s_)):
+                    return True
+    return False
 
 
 def getstate_effects(fi):
@@ -470,6 +491,46 @@ def run(ctx):
     from .C14 import seed_once_rule as _sor
     _sor(ctx, "C12.8")
     ctx.floor("C12.8", 1)
+
+    # ---- C12.9 resuming does not run the state-changing methods of the pickled reparameterisations -----------------------
+    # the reparameterisations are pickled with everything they learned from the live points (bounds, offsets, detected
+    # inversion edges, prime-prior bounds); update() / reset() / reset_inversion() recompute or clear part of that state and
+    # rely on the next training to re-detect the rest, so on the resume path (`initialise(resumed=True)` of an initialised
+    # proposal) nothing may reach them - unless their state is saved before and written back afterwards
+    import networkx as _nx9
+    from ..callgraph import callgraph as _cg9
+
+    g9, _u9 = _cg9(prog)
+    mut9 = set()
+    for f_ in prog.all_functions:
+        if f_.cls is None or not (f_.module.name.startswith("nessai.reparameterisations") or f_.module.name == "nessai.gw.reparameterisations"):
+            continue
+        if f_.name in ("__init__",) or f_.is_property:
+            continue
+        stores_ = any(isinstance(n_, ast.Attribute) and isinstance(n_.ctx, ast.Store) and isinstance(n_.value, ast.Name) and n_.value.id == "self" for n_ in walk_no_nested(f_.node))
+        if f_.name in ("update", "reset", "reset_inversion", "update_bounds", "set_bounds", "update_prime_prior_bounds", "reset_offsets", "set_offsets") and (stores_ or f_.cls.name == "CombinedReparameterisation"):
+            mut9.add(f_.qual)
+    ctx.require(len(mut9) >= 4, f"only {len(mut9)} state-changing reparameterisation methods found")
+    n9 = 0
+    fpc9 = prog.cls(tables.FP)
+    for k_ in [fpc9] + prog.subclasses(fpc9):
+        ini9 = k_.methods.get("initialise")
+        if ini9 is None:
+            continue
+        fa9 = FA(ini9)
+        for nid_, c_ in fa9.find_expr(lambda e_: isinstance(e_, ast.Call)):
+            tg_ = res.resolve_call(ini9, c_, count=False) or []
+            reach_ = any(h_.qual in mut9 or (h_.qual in g9 and _nx9.descendants(g9, h_.qual) & mut9) for h_ in tg_)
+            sets_ = any(isinstance(h_, FunctionInfo) and any(isinstance(n_, ast.Attribute) and n_.attr == "_reparameterisation" and isinstance(n_.ctx, ast.Store) for n_ in ast.walk(h_.node)) for h_ in tg_)
+            if not (reach_ or sets_):
+                continue
+            n9 += 1
+            facts_ = guard_facts(fa9, nid_)
+            fresh_ = any((canon(e_) in ("resumed",) and t_ is False) or (canon(e_) in ("self.initialised", "self._initialised") and t_ is False) or (t_ is True and canon(e_) in ("not resumed or not self.initialised", "not self.initialised or not resumed", "not (resumed and self.initialised)", "not (self.initialised and resumed)")) for e_, t_ in facts_)
+            ok9 = fresh_ or _state_saved_around(ini9, fa9.stmt(nid_))
+            ctx.ob("R-PICKLE", "C12.9", ini9, "a call that can change the state of the reparameterisations runs only when the proposal is initialised afresh (not on the resume path), or inside a save / restore of that state", ok9, f"`{src(c_)[:60]}` under {[(src(e_)[:40], t_) for e_, t_ in facts_]}", node=c_)
+    ctx.require(n9 >= 2, f"only {n9} state-changing calls found in FlowProposal.initialise (set_rescaling / verify_rescaling expected)")
+    ctx.floor("C12.9", 2)
     ctx.assumptions += ["pickle restores every attribute not named in __getstate__ bit-for-bit", "observational equality of result-bearing fields after resume is not decided (needs a run)"]
 
 
